@@ -288,6 +288,29 @@ def analyse_run(ctx, sig, case, res, inputs, opts, do_votes=True,
                           % (parent, nd['reference_leaves'],
                              nd['reference_types'], leaves, types))
                 return True
+            if ctx.driver_ok:
+                all_leaves = sorted(tv.leaves)
+                lid_ = {l: i for i, l in enumerate(all_leaves)}
+                kid_ = {c: i for i, c in enumerate(sorted(sibs))}
+                # children in dict order of the tree (not sorted), leaves of a
+                # child in sorted order (as_leaves)
+                out = ctx.model('election.assemble', {
+                    'kids': [kid_[c] for c in reversed(sorted(sibs))],
+                    'leaves': [[kid_[c], [lid_[l] for l in leaves
+                                          if tv.anc[l][cl] == c]]
+                               for c in sibs]})
+                if [all_leaves[i] for i in out['rows']] != list(
+                        nd['reference_leaves']) or \
+                        [sorted(sibs)[i] for i in out['types']] != list(
+                        nd['reference_types']):
+                    ctx.disagreements_checked += 1
+                    violation('correspondence/assembleRows',
+                              'correspondence CTM.Election.assembleRows ~ '
+                              'assemble_query_data (rows / types)',
+                              found=False, model=out,
+                              impl=[nd['reference_leaves'],
+                                    nd['reference_types']])
+                    return True
             if list(nd['reference_genes']) != g:
                 violation('node/gene-pairing', 'node %r: query and reference '
                           'columns name different genes' % (parent,))
